@@ -379,7 +379,7 @@ def checkpoint_lattice(seed, quick):
         {"kind": "ins", "model": "G2", "seed": seed, "kwargs": {}},
         {"kind": "ins", "model": "G2", "seed": seed, "kwargs": {"save_log_q": True}},
         {"kind": "ins", "model": "G2", "seed": seed, "kwargs": {"draw_iid_live": False, "strict_threshold": True}},
-        {"kind": "ins", "model": "G2hole", "seed": seed, "kwargs": {"reparameterisation": None, "draw_constant": False}},
+        {"kind": "ins", "model": "G2hole", "seed": seed, "kwargs": {"draw_constant": False, "min_remove": 3}},
         {"kind": "ins", "model": "G3", "seed": seed, "kwargs": {"flow_config": {"ftype": "maf"}, "replace_all": True}},
     ]
     if not quick:
